@@ -421,6 +421,9 @@ fn gen_cfg(rng: &mut Rng, prof: &Profile, nthreads: usize, seed: u64) -> ExecCfg
             kth: rng.range(1, 4) as u32,
             max_steps: *rng.pick(&[30u64, 100, 300, 1000, 3000, 8000]),
             epochs: *rng.pick(&[0u64, 1, 2, 3, 3, 4, 4, 5, 6, 9]),
+            when: None,
+            repeat: false,
+            until: None,
         });
     }
     ExecCfg {
